@@ -47,6 +47,11 @@ def run(tier):
         if c == 0:
             k = sorted(runs)[3]
             rep.sample({x: runs[k][0][x] for x in ("argv", "cfg", "nsegs", "nbytes", "malformed", "shards")})
+    # connections that come and go on one shared buffer pool; a client that dies inside a frame leaves nothing behind
+    tr = os.path.join(wd, "pool.ndjson")
+    vlib.vh(["conn", "pool", "--out", tr])
+    vlib.validate_runs(rep, "ConnTrace", "ConnTrace", tr, wd, "shared_pool", describe="connection case rejected: {what}", strip=("s", "cmds", "replies"))
+    os.remove(tr)
     # size- and depth-dependent paths: frames far larger than the read buffer, more commands in one read than any budget
     tr = os.path.join(wd, "scale.ndjson")
     vlib.vh(["conn", "scale", "--tier", tier, "--out", tr])
